@@ -154,11 +154,11 @@ def run(prog, chk):
                         inner_loop = inner_loop or _callee_loops_over_program(prog, t, wfns)
             if not (direct or callee_writes):
                 continue
-            loops = [s for s in enclosing_stmts(analyse.body, e) if s['k'] == 'forrange']
-            over = [l for l in loops if _program_collection(l['range']) and _full(l)]
+            loops = [s for s in enclosing_stmts(analyse.body, e) if s['k'] in ('forrange', 'for') and SX.loop_range(s) is not None]
+            over = [l for l in loops if _program_collection(SX.loop_range(l)) and _full(l)]
             if over:
                 # the loop as a whole is the population step (it may run zero times when there is nothing to declare)
-                pop.extend(x for x in g.nodes if x.kind == 'rangeinit' and x.e is over[0])
+                pop.extend(x for x in g.nodes if (x.kind == 'rangeinit' and x.e is over[0]) or (x.kind == 'loophead' and x.e is over[0]))
             elif inner_loop:
                 pop.append(cn)
         ok = bool(pop) and all(g.must_precede(pop, a) for a in accepts)
